@@ -52,3 +52,20 @@ Theorem C05_reencoder_fills_request :
     exists (out : bytes) (e' : estate) (cs' : list N),
       enc_read e n = ROk out e' /\ enc_at e' cs' /\ (length out = n \/ pending e' cs' = []).
 Proof. exact reencoder_fills_request. Qed.
+
+(* A witness on the model (the replay of the known finding): thirty YAML
+   documents "--- 1\n" in UTF-16LE.  The first read() libyaml issues (16 KiB)
+   consumes the whole input - all thirty documents - before a single document
+   can be handed over. *)
+Example C05_reencoder_lag_witness :
+  let doc := [45; 45; 45; 32; 49; 10]%N in
+  let text := concat (repeat doc 30) in
+  match encoder_new (encode_as false false text) Utf16Little with
+  | Recode e =>
+      match enc_read e (N.to_nat 16384) with
+      | ROk out e' => length out = 180 /\ rest (dec_ e') = [] /\ out = utf8_encode_all text
+      | RErr _ _ => False
+      end
+  | Passthrough _ => False
+  end.
+Proof. vm_compute. repeat split. Qed.
